@@ -9,7 +9,11 @@
 //    remove/get/next/prev of that element (iterator stability; a dangling one is an ASan error);
 //  * shape: the comparator is ours, so a read-only zix_tree_find can be steered to any node (answer by
 //    in-order position relative to the target, 0 only at the target); the comparison log is then the
-//    root-to-node path, also among equal keys.
+//    root-to-node path, also among equal keys;
+//  * parent links: after every executed insert/remove (any status), while the tree has at most SWEEP_LIMIT
+//    elements, one zix_tree_iter_next and one zix_tree_iter_prev from the HELD iterator of every live
+//    element (token L<id>next.../<id>prev..., see ocaml/drv_c06.ml); the model side computes the same
+//    steps on the pointer-level model coq/AvlHeapModel.v.
 #include "vcommon.h"
 
 #include <zix/allocator.h>
@@ -143,6 +147,39 @@ static int id_of(ZixTreeIter* it)
 {
   Elem* e = (Elem*)zix_tree_get(it);
   return e ? e->id : -1;
+}
+
+#define SWEEP_LIMIT 24 // the same constant as sweep_limit in ocaml/drv_c06.ml
+
+// next (fwd) or prev of every held iterator, ascending ids: "<id>><id of the neighbour or ->" dot-separated
+static void sweep_dir(FILE* s, int fwd)
+{
+  int first = 1;
+  for (int id = 0; id < n_ids; ++id) {
+    if (!iter[id]) {
+      continue;
+    }
+    ZixTreeIter* r   = fwd ? zix_tree_iter_next(iter[id]) : zix_tree_iter_prev(iter[id]);
+    const int    end = fwd ? zix_tree_iter_is_end(r) : zix_tree_iter_is_rend(r);
+    fprintf(s, "%s%d>", first ? "" : ".", id);
+    first = 0;
+    if (end) {
+      fputc('-', s);
+    } else {
+      fprintf(s, "%d", id_of(r));
+    }
+  }
+}
+
+static void do_sweep(FILE* s)
+{
+  if (zix_tree_size(tree) > SWEEP_LIMIT) {
+    return;
+  }
+  fputs(" L", s);
+  sweep_dir(s, 1);
+  fputc('/', s);
+  sweep_dir(s, 0);
 }
 
 // forward / backward walk into malloc'd id arrays; returns count, -1 if it does not stop
@@ -336,6 +373,7 @@ int main(void)
           free(e);
           elem[id] = NULL;
         }
+        do_sweep(s);
       } else if (c == 'r') {
         if (arg < 0 || arg >= n_ids || !iter[arg]) {
           fputs("r:skip", o);
@@ -381,6 +419,7 @@ int main(void)
           fputs("+cmp", s);
         }
         free(dbuf);
+        do_sweep(s);
       } else if (c == 'f') {
         Elem         p  = {arg, -1};
         ZixTreeIter* ti = NULL;
